@@ -21,6 +21,10 @@ def run(chk):
     for _ in range(60 if thorough else 14):
         case = case_for_c02(rng)
         case['iters'] = min(case['iters'], 150 if thorough else 80)
+        if _ % 3 == 2:      # refinement early in the search, then the search goes on
+            case['refine_at'] = rng.choice([2, 4, 8]); case['eps'] = 1e-9
+            if _ % 2 == 0:
+                case['objective'] = H.random_objective(rng, case['n'], kinds=('cones', 'quad', 'sin'), lo=case['lo'], hi=case['hi'])
         res = O.guarded(lambda c: O.c02_steps(c, check04=False, check06=False), case)
         if isinstance(res, tuple):
             fails, st = res
